@@ -105,3 +105,17 @@ fn d9_rl_builder_set_len_then_set() {
     let runs: Vec<(usize, usize)> = rl.run_iter().collect();
     assert_eq!(runs, vec![(5, 3)]);
 }
+
+#[test]
+fn d10_int_vector_mapper_offset_max() {
+    use simple_sds::int_vector::{IntVector, IntVectorMapper};
+    use simple_sds::serialize::MemoryMapped;
+    let name = serialize::temp_file_name("d10");
+    let v = IntVector::from(vec![1u64, 2, 3]);
+    serialize::serialize_to(&v, &name).unwrap();
+    let map = MemoryMap::new(&name, MappingMode::ReadOnly).unwrap();
+    let r = std::panic::catch_unwind(|| IntVectorMapper::new(&map, usize::MAX).is_err());
+    drop(map);
+    fs::remove_file(&name).unwrap();
+    assert_eq!(r.ok(), Some(true), "offset usize::MAX must be refused with an error, not a panic");
+}
